@@ -24,6 +24,12 @@ type Action struct {
 	A string `json:"a"` // require prequire setloaded module return returnnothing fail
 	M int    `json:"m,omitempty"`
 	E *VExp  `json:"e,omitempty"`
+	// require/prequire only: "" = on the loader's own thread; "co" / "cog" = on another coroutine of
+	// the same state (model: TCo). Lua loaders: co = coroutine.wrap(function() return require(m) end)()
+	// resp. coroutine.resume(coroutine.create(function ... end)); cog = the coroutine's body is require
+	// itself (a Go function). Go loaders: co = L.NewThread() + CallByParam on it; cog = L.NewThread() +
+	// L.Resume(thread, require, m)
+	T string `json:"t,omitempty"`
 	// module(name, package.seeall) instead of module(name); the model does not distinguish them
 	// (the option only gives the module table's metatable an __index)
 	SeeAll bool `json:"seeall,omitempty"`
@@ -42,7 +48,7 @@ type File struct {
 }
 
 type Op struct {
-	Op     string  `json:"op"` // require preload file path clear setglobal getglobal getloaded register
+	Op     string  `json:"op"` // require preload file path clear setglobal getglobal getloaded register newpreload
 	N      int     `json:"n"`
 	D      int     `json:"d,omitempty"`
 	Loader *Loader `json:"loader,omitempty"` // preload: nil = remove
@@ -51,6 +57,12 @@ type Op struct {
 	G      string  `json:"g,omitempty"` // setglobal: nil str tab
 	GK     int     `json:"gk,omitempty"`
 	Fs     []int   `json:"fs,omitempty"`
+	// newpreload: package.preload = {a new table holding the old entries of these names}
+	Keep []int `json:"keep,omitempty"`
+	// require / preload (go) / register: > 0 = the host issues the call on its Th-th extra thread
+	// (L.NewThread(), kept for the whole history) instead of the main thread. The model has one
+	// state per Lua state, shared by its threads, so the Gallina term is the same.
+	Th int `json:"th,omitempty"`
 }
 
 // IOp is one step of a host that opens the libraries itself (lua.Options{SkipOpenLibs: true})
@@ -129,9 +141,9 @@ func (e *VExp) coq() string {
 func (a Action) coq() string {
 	switch a.A {
 	case "require":
-		return fmt.Sprintf("Require %d", a.M)
+		return fmt.Sprintf("Require %s %d", threadCoq(a.T), a.M)
 	case "prequire":
-		return fmt.Sprintf("PRequire %d", a.M)
+		return fmt.Sprintf("PRequire %s %d", threadCoq(a.T), a.M)
 	case "setloaded":
 		return "SetLoaded " + a.E.coq()
 	case "module":
@@ -144,6 +156,16 @@ func (a Action) coq() string {
 		return "Fail"
 	}
 	panic("action " + a.A)
+}
+
+func threadCoq(t string) string {
+	switch t {
+	case "":
+		return "TSame"
+	case "co", "cog":
+		return "TCo"
+	}
+	panic("thread " + t)
 }
 
 func scriptCoq(sc []Action) string {
@@ -205,6 +227,8 @@ func (o Op) coq() string {
 		return fmt.Sprintf("HGetLoaded %d", o.N)
 	case "register":
 		return fmt.Sprintf("HRegister %d %s", o.N, zlist(o.Fs))
+	case "newpreload":
+		return "HNewPreload " + zlist(o.Keep)
 	}
 	panic("op " + o.Op)
 }
@@ -405,9 +429,27 @@ func luaBody(sc []Action, origin string) string {
 	for _, a := range sc {
 		switch a.A {
 		case "require":
-			fmt.Fprintf(&sb, "require(%q)\n", modNames[a.M])
+			switch a.T {
+			case "":
+				fmt.Fprintf(&sb, "require(%q)\n", modNames[a.M])
+			case "co":
+				fmt.Fprintf(&sb, "P.cowrap(function() return require(%q) end)()\n", modNames[a.M])
+			case "cog":
+				fmt.Fprintf(&sb, "P.cowrap(require)(%q)\n", modNames[a.M])
+			default:
+				panic("thread " + a.T)
+			}
 		case "prequire":
-			fmt.Fprintf(&sb, "pcall(require, %q)\n", modNames[a.M])
+			switch a.T {
+			case "":
+				fmt.Fprintf(&sb, "pcall(require, %q)\n", modNames[a.M])
+			case "co":
+				fmt.Fprintf(&sb, "P.coresume(P.cocreate(function() return require(%q) end))\n", modNames[a.M])
+			case "cog":
+				fmt.Fprintf(&sb, "P.coresume(P.cocreate(require), %q)\n", modNames[a.M])
+			default:
+				panic("thread " + a.T)
+			}
 		case "setloaded":
 			fmt.Fprintf(&sb, "package.loaded[name] = %s\n", vexpLua(a.E))
 		case "module":
@@ -435,6 +477,62 @@ type runT struct {
 	blown bool
 	pkg   lua.LValue // the package table, held by the host
 	P     *lua.LTable
+	ths   map[int]*lua.LState // the host's extra threads (L.NewThread), by number
+}
+
+// the host's i-th thread: 0 = the main thread
+func (r *runT) thread(i int) *lua.LState {
+	if i <= 0 {
+		return r.L
+	}
+	if r.ths == nil {
+		r.ths = map[int]*lua.LState{}
+	}
+	if t, ok := r.ths[i]; ok {
+		return t
+	}
+	t, _ := r.L.NewThread()
+	r.ths[i] = t
+	return t
+}
+
+// makes coroutine.wrap/create/resume available to the generated loaders through vh_P (hosts that
+// open libraries themselves do not open the coroutine library: it is opened, after their
+// initialisation sequence, only when a loader of the case needs it)
+func (r *runT) ensureCoroutine() {
+	L := r.L
+	if r.P.RawGetString("cowrap") != lua.LNil {
+		return
+	}
+	co, ok := L.GetGlobal("coroutine").(*lua.LTable)
+	if !ok {
+		co, _ = openLib(lua.CoroutineLibName, lua.OpenCoroutine)(L).(*lua.LTable)
+	}
+	r.P.RawSetString("cowrap", co.RawGetString("wrap"))
+	r.P.RawSetString("cocreate", co.RawGetString("create"))
+	r.P.RawSetString("coresume", co.RawGetString("resume"))
+}
+
+func usesThreads(x in) bool {
+	has := func(sc []Action) bool {
+		for _, a := range sc {
+			if a.T != "" {
+				return true
+			}
+		}
+		return false
+	}
+	for _, o := range x.Init {
+		if o.Loader != nil && has(o.Loader.Script) {
+			return true
+		}
+	}
+	for _, o := range x.Ops {
+		if (o.Loader != nil && has(o.Loader.Script)) || (o.File != nil && has(o.File.Script)) {
+			return true
+		}
+	}
+	return false
 }
 
 // (re)fills vh_P with the library functions that exist now
@@ -444,7 +542,7 @@ func (r *runT) fillP() {
 		r.P = L.NewTable()
 		L.SetGlobal("vh_P", r.P)
 		r.P.RawSetString("emit", L.NewFunction(func(L *lua.LState) int {
-			r.emit(L.CheckString(1), L.CheckString(2))
+			r.emit(L, L.CheckString(1), L.CheckString(2))
 			return 0
 		}))
 	}
@@ -458,10 +556,10 @@ func (r *runT) fillP() {
 // re-entry. From then on every loader fails at entry so that the recursion unwinds at once.
 const invocationBudget = 400
 
-func (r *runT) emit(name, origin string) {
+func (r *runT) emit(L *lua.LState, name, origin string) {
 	if len(r.log) >= invocationBudget {
 		r.blown = true
-		r.L.RaiseError("vh-budget")
+		L.RaiseError("vh-budget")
 	}
 	l := logT{N: nameID(name), O: "pre"}
 	if strings.HasPrefix(origin, "file:") {
@@ -494,7 +592,7 @@ func vexpGo(L *lua.LState, e *VExp, t [2]*lua.LTable) lua.LValue {
 func (r *runT) goLoader(sc []Action) lua.LGFunction {
 	return func(L *lua.LState) int {
 		name := L.CheckString(1)
-		r.emit(name, "pre")
+		r.emit(L, name, "pre")
 		t := [2]*lua.LTable{L.NewTable(), L.NewTable()}
 		locked := L.NewTable()
 		locked.RawSetString("__metatable", lua.LString("locked"))
@@ -502,11 +600,21 @@ func (r *runT) goLoader(sc []Action) lua.LGFunction {
 		for _, a := range sc {
 			switch a.A {
 			case "require":
+				if a.T != "" {
+					if err := requireOnNewThread(L, a.T, modNames[a.M]); err != nil {
+						L.RaiseError("%s", errText(err)) // the host passes the failure on
+					}
+					break
+				}
 				if err := L.CallByParam(lua.P{Fn: L.GetGlobal("require"), NRet: 1, Protect: false}, lua.LString(modNames[a.M])); err != nil {
 					panic(err)
 				}
 				L.Pop(1)
 			case "prequire":
+				if a.T != "" {
+					requireOnNewThread(L, a.T, modNames[a.M])
+					break
+				}
 				if err := L.CallByParam(lua.P{Fn: L.GetGlobal("require"), NRet: 1, Protect: true}, lua.LString(modNames[a.M])); err == nil {
 					L.Pop(1)
 				}
@@ -531,6 +639,21 @@ func (r *runT) goLoader(sc []Action) lua.LGFunction {
 		}
 		return 0
 	}
+}
+
+// a Go function running on L requires a module on a new thread of the same state
+func requireOnNewThread(L *lua.LState, mode, name string) error {
+	co, _ := L.NewThread()
+	fn := L.GetGlobal("require").(*lua.LFunction)
+	if mode == "cog" { // drive it as a coroutine
+		_, err, _ := L.Resume(co, fn, lua.LString(name))
+		return err
+	}
+	err := co.CallByParam(lua.P{Fn: fn, NRet: 1, Protect: true}, lua.LString(name))
+	if err == nil {
+		co.Pop(1)
+	}
+	return err
 }
 
 // ---------- reading observations ----------
@@ -720,7 +843,10 @@ func hostFuncs(fs []int) map[string]lua.LGFunction {
 // runs a host call that yields a module table under a protected call; observes the table's
 // identity and which of the host functions hf0..hf3 it has, or the error class
 func (r *runT) protectedTable(f func(L *lua.LState) lua.LValue) obsT {
-	L := r.L
+	return r.protectedTableOn(r.L, f)
+}
+
+func (r *runT) protectedTableOn(L *lua.LState, f func(L *lua.LState) lua.LValue) obsT {
 	top := L.GetTop()
 	err := L.CallByParam(lua.P{Fn: L.NewFunction(func(L *lua.LState) int {
 		L.Push(f(L))
@@ -849,6 +975,9 @@ func runHistory(env *envT, x in) (obs []obsT, fail string) {
 		}
 		r.fillP()
 	}
+	if usesThreads(x) {
+		r.ensureCoroutine()
+	}
 	pkg := r.pkg
 	if len(x.Init) == 0 {
 		L.SetField(pkg, "path", lua.LString(env.pathString([]int{0, 1})))
@@ -858,15 +987,16 @@ func runHistory(env *envT, x in) (obs []obsT, fail string) {
 		switch o.Op {
 		case "require":
 			before := len(r.log)
-			top := L.GetTop()
-			err := L.CallByParam(lua.P{Fn: requireFn, NRet: 1, Protect: true}, lua.LString(modNames[o.N]))
+			st := r.thread(o.Th)
+			top := st.GetTop()
+			err := st.CallByParam(lua.P{Fn: requireFn, NRet: 1, Protect: true}, lua.LString(modNames[o.N]))
 			ob := obsT{Kind: "res"}
 			if err != nil {
 				ob.Err = r.classify(errText(err))
 			} else {
-				ob.Val = r.val(L.Get(-1))
+				ob.Val = r.val(st.Get(-1))
 			}
-			L.SetTop(top)
+			st.SetTop(top)
 			if r.blown {
 				return obs, "unbounded loader recursion: more than 400 loader invocations in one history"
 			}
@@ -876,7 +1006,7 @@ func runHistory(env *envT, x in) (obs []obsT, fail string) {
 			if o.Loader == nil {
 				L.SetField(L.GetField(pkg, "preload"), modNames[o.N], lua.LNil)
 			} else if o.Loader.Kind == "go" {
-				L.PreloadModule(modNames[o.N], r.goLoader(o.Loader.Script))
+				r.thread(o.Th).PreloadModule(modNames[o.N], r.goLoader(o.Loader.Script))
 			} else {
 				src := luaPrelude + fmt.Sprintf("P.package.preload[%q] = function(...)\n%send\n", modNames[o.N], luaBody(o.Loader.Script, "pre"))
 				if err := L.DoString(src); err != nil {
@@ -933,7 +1063,18 @@ func runHistory(env *envT, x in) (obs []obsT, fail string) {
 		case "register":
 			fs := o.Fs
 			name := modNames[o.N]
-			obs = append(obs, r.protectedTable(func(L *lua.LState) lua.LValue { return L.RegisterModule(name, hostFuncs(fs)) }))
+			obs = append(obs, r.protectedTableOn(r.thread(o.Th), func(L *lua.LState) lua.LValue { return L.RegisterModule(name, hostFuncs(fs)) }))
+		case "newpreload":
+			// what a script's `package.preload = {...}` does: a new table in the field, holding
+			// (copies of) some of the old entries
+			nt := L.NewTable()
+			if old, ok := L.GetField(pkg, "preload").(*lua.LTable); ok {
+				for _, k := range o.Keep {
+					nt.RawSetString(modNames[k], old.RawGetString(modNames[k]))
+				}
+			}
+			L.SetField(pkg, "preload", nt)
+			obs = append(obs, obsT{Kind: "none"})
 		default:
 			panic("unknown op " + o.Op)
 		}
@@ -961,9 +1102,18 @@ func classOf(x in, obs []obsT) (class string, nontrivial bool) {
 	if len(x.Init) > 0 {
 		set["init"] = true
 	}
+	if usesThreads(x) {
+		set["co"] = true
+	}
 	for _, o := range x.Ops {
 		if o.Loader != nil && o.Loader.Kind == "go" {
 			set["goloader"] = true
+		}
+		if o.Th > 0 {
+			set["co"] = true
+		}
+		if o.Op == "newpreload" {
+			set["newpreload"] = true
 		}
 		if o.File != nil {
 			set["file"] = true
